@@ -17,7 +17,7 @@ VERIF = os.path.dirname(os.path.dirname(os.path.abspath(__file__)))
 COQ = os.path.join(VERIF, 'coq')
 WORK = os.path.join(VERIF, 'work')
 EVID = os.path.join(VERIF, 'evidence')
-REPO = '/repo'
+REPO = os.environ.get('VERIF_REPO', '/repo')
 COQ_ARGS = ['-Q', os.path.join(COQ, 'theories'), 'RxVerif', '-Q', os.path.join(COQ, 'props'), 'RxProps']
 NCPU = min(16, os.cpu_count() or 4)
 
@@ -92,8 +92,7 @@ def hygiene():
 def coq_build(target=None, timeout=3000):
     """Incremental full (.vo) build under a file lock; returns (ok, log)."""
     os.makedirs(WORK, exist_ok=True)
-    with open(os.path.join(WORK, '.build.lock'), 'w') as lk:
-        fcntl.flock(lk, fcntl.LOCK_EX)
+    if True:  # build.sh serialises itself with flock
         cmd = ['bash', os.path.join(COQ, 'build.sh')] + (target.split() if target else [])
         try:
             r = subprocess.run(cmd, cwd=COQ, stdout=subprocess.PIPE, stderr=subprocess.STDOUT,
